@@ -371,3 +371,6 @@ def run(ctx):
     ctx.guarded("C14.ids", rule_ids, ctx)
     ctx.guarded("C14.bundle", rule_bundle, ctx, ent)
     ctx.guarded("C14.login", rule_login, ctx)
+    # the control layer matches the upload's result by iq id only: ids must be unique across entity classes (C08.id), adopted
+    from . import c08
+    ctx.adopt_from("C08", [(c08.rule_id, ())], {"C08.id": "C14.sent"})
